@@ -55,18 +55,26 @@ Definition ctrl_event (k : ctrl) : option event :=
   | _ => None
   end.
 
-(* the single statement of a with-block / the operand of an inline context: one event, and it
-   never ends the routine *)
+(* the single statement of a with-block / the operand of an inline context: an operation, assignment or
+   return/end/hold is one event and never ends the routine; a jump, call, break, continue or break_loop goes where it
+   goes anywhere else (the compiler puts the context op in front of the Jump / Call op) *)
 Definition tr_inctx (e : env) (s : stmt) (k : nat) : M nat :=
   match s with
   | SOp None name args =>
       if plain_op_name name then alloc (NOp (name, args) k) else fail "reserved operation name"
+  | SCtrl KContinue => need (e_cont e) "continue outside a loop"
+  | SCtrl KBreak => need (e_break e) "break outside a switch case"
+  | SCtrl KBreakLoop => need (e_brkloop e) "break_loop outside a loop"
   | SCtrl c =>
       match ctrl_event c with
       | Some ev => alloc (NOp ev k)
       | None => fail "unsupported control statement in with-block"
       end
   | SAssign a => dom ev <- lift (assign_event (e_perf e) a); alloc (NOp ev k)
+  | SJump l => need (assoc_string l (e_labels e)) "jump to undefined label"
+  | SCall l =>
+      dom idx <- need (assoc_string l (e_labels e)) "call to undefined label";
+      alloc (NTest ("Call"%string, []) idx k)
   | _ => fail "unsupported statement in with-block"
   end.
 
